@@ -10,7 +10,7 @@
    the cache hold for every engine in which a successfully running compiled program agrees with the
    env path ([iso_sound]); the engine used for the correspondence runs satisfies it. *)
 From Coq Require Import List.
-From SV Require Import Model.Isolation Proofs.IsolationProofs.
+From SV Require Import Model.Isolation Proofs.IsolationProofs Model.BridgeMemo Proofs.BridgeMemoProofs.
 Import ListNotations.
 
 (* Emit/EmitSync leave the map passed by the caller exactly as it was (deep: the row, with every
@@ -56,6 +56,49 @@ Theorem C20_cache_transparent : forall P (E : iengine P) c t r,
   fst (iso_eval_cached E c t r) = ie_fresh E t r /\ iso_cache_ok E (snd (iso_eval_cached E c t r)).
 Proof. exact iso_cache_transparent. Qed.
 Print Assumptions C20_cache_transparent.
+
+(* every OTHER memo table of the process-wide bridge that is keyed by the expression text alone
+   (Model/BridgeMemo.v: a decision d : text -> row -> A behind Load / compute-on-this-row / Store): if the
+   decision does not look at the row (the preprocessed text, ...), then after ANY history of evaluations by
+   any instances - other texts, other rows, any order - an evaluation returns what it returns in a fresh
+   process *)
+Theorem C20_text_memo_transparent : forall A (d : bytes -> irow -> A),
+  (forall t r r', d t r = d t r') ->
+  forall evs t r, fst (bm_eval d (snd (bm_run d [] evs)) t r) = d t r.
+Proof. exact bm_transparent_after_history. Qed.
+Print Assumptions C20_text_memo_transparent.
+
+(* ... and only then: a table keyed by the text is transparent on all histories exactly when the
+   decision is a function of the text *)
+Theorem C20_text_memo_transparent_iff : forall A (d : bytes -> irow -> A),
+  (forall evs, fst (bm_run d [] evs) = bm_fresh d evs) <-> (forall t r r', d t r = d t r').
+Proof. exact bm_transparent_iff. Qed.
+Print Assumptions C20_text_memo_transparent_iff.
+
+(* the bridge's verdict "this '+' expression is a string concatenation" (isStringConcatenationExpression:
+   a quoted literal operand, or a column operand whose value in THIS row is a string; the lexical part
+   [lit], [ops] is arbitrary) is not such a decision: for every text without a literal operand and with a
+   column operand, instance A evaluating it on a row where the column is a string makes a table keyed by
+   the text tell instance B "concatenation" on a row where alone it is told "addition".  The verdict
+   must not be memoised by the text (attacked on the implementation by the typed-bridge paired family) *)
+Theorem C20_concat_verdict_memo_by_text_refuted : forall lit ops t f,
+  lit t = false -> In f (ops t) ->
+  exists rA rB,
+    fst (bm_eval (bm_concat_verdict lit ops) (snd (bm_run (bm_concat_verdict lit ops) [] [(t, rA)])) t rB) = true /\
+    fst (bm_eval (bm_concat_verdict lit ops) [] t rB) = false.
+Proof. exact bm_concat_memo_refuted. Qed.
+Print Assumptions C20_concat_verdict_memo_by_text_refuted.
+
+(* non-vacuity: x + y, operands x and y, no literal; strings in A's row, numbers in B's *)
+Example C20_concat_verdict_example :
+  let lit := fun _ : bytes => false in
+  let ops := fun _ : bytes => [[120]%N; [121]%N] in
+  let t := [120; 32; 43; 32; 121]%N in
+  let rA := [([120]%N, IStr [100]%N); ([121]%N, IStr [45]%N)] in
+  let rB := [([120]%N, IInt 1); ([121]%N, IInt 2)] in
+  fst (bm_run (bm_concat_verdict lit ops) [] [(t, rA); (t, rB)]) = [true; true] /\
+  bm_fresh (bm_concat_verdict lit ops) [(t, rA); (t, rB)] = [true; false].
+Proof. split; vm_compute; reflexivity. Qed.
 
 (* any number of instances (instance i runs query qs i; same or different SQL), any interleaving
    [evs] of their inputs: what instance i delivers is exactly what it delivers alone in a fresh
